@@ -1758,6 +1758,15 @@ Proof.
     destruct (jenc_step sh o s t) as [[s' out] r]. subst r. exact I.
 Qed.
 
+Lemma forallb_false_exists {A} (p : A -> bool) l :
+  forallb p l = false -> exists x, In x l /\ p x = false.
+Proof.
+  induction l as [|t ts IH]; [discriminate|]. cbn [forallb].
+  destruct (p t) eqn:Et; cbn [andb]; intros E.
+  - destruct (IH E) as (x & Hin & Hx). exists x. split; [right; exact Hin|exact Hx].
+  - exists t. split; [left; reflexivity|exact Et].
+Qed.
+
 Lemma jinv_init : jinv_gen (jcur jenc_init) (jstack jenc_init).
 Proof. split; [constructor|reflexivity]. Qed.
 
@@ -1766,13 +1775,8 @@ Theorem pump_c2j_unrepresentable : forall sh o c bs toks rest a,
   dec_run c bs = DOk toks rest a -> json_repr_all toks = false -> pump_c2j sh o c bs = PumpErr.
 Proof.
   intros sh o c bs toks rest a H Hr. unfold pump_c2j. rewrite H.
-  assert (Hex : Exists (fun t => json_repr (tv t) = false) toks).
-  { unfold json_repr_all in Hr. apply Exists_exists.
-    destruct (forallb (fun t => json_repr (tv t)) toks) eqn:E; [discriminate|].
-    clear Hr. induction toks as [|t ts IH]; [discriminate|]. cbn [forallb] in E.
-    destruct (json_repr (tv t)) eqn:Et.
-    - destruct (IH E) as (x & Hin & Hx). exists x. split; [right; exact Hin|exact Hx].
-    - exists t. split; [left; reflexivity|exact Et]. }
+  assert (Hex : Exists (fun t => json_repr (tv t) = false) toks)
+    by (apply Exists_exists; apply forallb_false_exists; exact Hr).
   pose proof (jenc_run_unrepr sh o toks jenc_init 0%nat jinv_init Hex) as Hrun.
   unfold jenc_tokens. destruct (jenc_run sh o jenc_init toks 0) as [chunks n| | |]; try reflexivity.
   cbn [plus] in Hrun. destruct (Nat.eqb_spec n (length toks)); [lia|reflexivity].
@@ -1873,7 +1877,7 @@ Section ToJson.
       destruct v; try contradiction; cbn [jnorm flatten map]; unfold jnorm_tok; cbn [tv]; try reflexivity.
       + destruct (u <=? max_int64); reflexivity.
       + destruct (Hflt bits [] Hok I) as (first & more & _ & _ & Hl & _).
-        rewrite (flatten_leaf None _ Hl). reflexivity.
+        destruct (fnorm bits); try discriminate Hl; reflexivity.
     - cbn [json_ok] in Hok. apply fold_pair_Forall in Hok.
       cbn [jnorm flatten map]. unfold jnorm_tok at 1. cbn [tv]. f_equal.
       rewrite map_app. cbn [map]. f_equal.
